@@ -54,6 +54,7 @@ type FuncSpec struct {
 	Lemmas    []NamedExpr   // "lemma name: expr" inside a func block: proved in the entry state of that function, without its requires; never assumed
 	CallSite  bool          // assumed contract of one external call site ("callsite" block)
 	PerExit   bool          // "perexit": ensures are checked at every return separately instead of on the merged exit state
+	Indep     bool          // "indep": every ensures clause is proved on its own (earlier ensures clauses are not assumed for later ones)
 }
 
 // GhostAssign is "x.f = expr" for a ghost field f.
@@ -166,7 +167,7 @@ func (ss *SpecSet) parseFile(pkg, file, text string) error {
 	}
 	var items []item
 	kw := map[string]bool{"func": true, "loop": true, "type": true, "pure": true, "lemma": true, "requires": true, "ensures": true,
-		"modifies": true, "decreases": true, "invariant": true, "inv": true, "owns": true, "mode": true, "trusted": true, "iface": true, "functype": true, "sets": true, "ghost": true, "ghost_exit": true, "ghostvar": true, "iteration": true, "callsite": true, "perexit": true}
+		"modifies": true, "decreases": true, "invariant": true, "inv": true, "owns": true, "mode": true, "trusted": true, "iface": true, "functype": true, "sets": true, "ghost": true, "ghost_exit": true, "ghostvar": true, "iteration": true, "callsite": true, "perexit": true, "indep": true}
 	for i, ln := range lines {
 		t := strings.TrimSpace(ln)
 		if !strings.HasPrefix(t, "//@") {
@@ -245,6 +246,11 @@ func (ss *SpecSet) parseFile(pkg, file, text string) error {
 				return errf("perexit outside func")
 			}
 			curF.PerExit = true
+		case "indep":
+			if curF == nil {
+				return errf("indep outside func")
+			}
+			curF.Indep = true
 		case "loop":
 			key := pkg + "." + strings.TrimSpace(rest)
 			curL = &LoopSpec{Key: key}
